@@ -126,6 +126,16 @@ func checkC02(r *core.Run) {
 	c02CodesepPos(r, p)
 	c02InputsReadOnly(r, p)
 	c02CacheOwners(r, p, "R-C02-cache")
+	// hash types that consensus distinguishes take different branches in each digest function (shared with C01)
+	hashTypeClasses(r, p, func(fn string) string {
+		switch {
+		case strings.HasSuffix(fn, "WitnessSigHash"):
+			return "R-C02-bip143"
+		case strings.HasSuffix(fn, "TaprootSigHash"):
+			return "R-C02-bip341"
+		}
+		return "R-C02-legacy"
+	})
 	c02Legacy(r, p)
 }
 
@@ -1008,19 +1018,6 @@ func c02Legacy(r *core.Run, p *core.Program) {
 		}
 	})
 	r.Check(okOne, rule, "single-out-of-range-constant", p.Pos(fn.Pos()), "returns 01 00..00 when SIGHASH_SINGLE has no matching output", "the SIGHASH_SINGLE out-of-range result is not the 32-byte constant 01 00..00 under the condition nIn >= len(TxOut)")
-	// hash type decoded with 0x1f and 0x80
-	masks := map[int64]bool{}
-	an.Instrs(fn, func(i ssa.Instruction) {
-		if bo, ok := i.(*ssa.BinOp); ok && bo.Op == token.AND && an.HasAll(an.Atoms(bo), "param#3") {
-			if k, ok := an.ConstOf(bo.Y); ok {
-				masks[k.Int64()] = true
-			}
-			if k, ok := an.ConstOf(bo.X); ok {
-				masks[k.Int64()] = true
-			}
-		}
-	})
-	r.Check(masks[0x1f] && masks[0x80] && len(masks) == 2, rule, "hash-type-masks", p.Pos(fn.Pos()), "hash type decoded with 0x1f and 0x80", fmt.Sprintf("hash type is decoded with masks %v (expected 0x1f and 0x80)", keysOf(masks)))
 	// OP_CODESEPARATOR (0xab) removal loop
 	okSep := false
 	for _, b := range fn.Blocks {
